@@ -43,7 +43,7 @@ MC_FLAGS = {"C01": dict(WithCut="FALSE", WithFormat="FALSE"),
             "C02": dict(WithCut="TRUE", WithFormat="FALSE"),
             "C03": dict(WithCut="FALSE", WithFormat="TRUE")}
 WITNESSES = {
-    "C01": {"T3Tag": ["W_Rejected", "W_Refused", "W_Batches", "W_Full", "W_Recover", "W_EmptyMsg"],
+    "C01": {"T3Tag": ["W_Rejected", "W_Refused", "W_Batches", "W_Full", "W_Recover", "W_EmptyMsg", "W_OtherSystem"],
             "T4Tag": ["W_Single", "W_Multi", "W_Rejected", "W_Refused", "W_Full", "W_TwoDigit"]},
     "C02": {"T3Tag": ["W_CutOld", "W_CutNotReadable", "W_CutNew"],
             "T4Tag": ["W_CutOld", "W_CutEmpty", "W_CutNew"]},
@@ -51,7 +51,8 @@ WITNESSES = {
 }
 # thorough tier: larger scaled constants
 THOROUGH = {
-    "T3Tag": {"Nmaxbs": "{0, 1, 2, 3, 4, 5, 6}", "Nbrs": "{1, 2, 3, 4}", "Nbws": "{0, 1, 2, 3, 4}"},
+    "T3Tag": {"Nmaxbs": "{0, 1, 2, 3, 4, 5, 6}", "Nbrs": "{1, 2, 3, 4}", "Nbws": "{0, 1, 2, 3, 4}",
+              "Cards": "{100, 211, 320}"},
     "T4Tag": {"Mfss": "{5, 6, 7, 8, 9, 10, 11, 12, 13, 14}", "OldLens": "{0, 1, 2, 3, 4, 5, 6, 7, 8, 9, 10}",
               "MLes": "{2, 3, 4, 5, 6, 7}", "MLcs": "{1, 2, 3, 4, 5, 6, 7}"},
 }
@@ -97,6 +98,7 @@ class EmuT3T(object):
         nblocks = nmaxb if nblocks is None else nblocks
         self.mem = bytearray(attr) + bytearray(data) + bytearray([fill]) * max(0, nblocks * 16 - len(data))
         self.nblocks, self.gen = nblocks, None
+        self.nsys, self.ndef_pos, self.read_sys = 1, 0, []
         self.oth = bytearray(other)
         self.idm = bytes.fromhex("02FE0A0B0C0D0E0F")
         self.pmm = bytes.fromhex("00FFFFFFFFFFFFFF")
@@ -134,9 +136,13 @@ class EmuT3T(object):
         self.powered = True
         self.cut_after = None
         self.reads = []
+        self.read_sys = []
 
-    def sensf_res(self):
-        return b"\x01" + self.idm + self.pmm + b"\x12\xFC"
+    def sensf_res(self, act="ndef"):
+        return b"\x01" + self.idm + self.pmm + (b"" if act == "nocode" else b"\x12\xFC")
+
+    def system_of(self, idm):
+        return 0 if bytes(idm) == self.idm else -1
 
     def attr_block(self):
         return bytes(self.mem[:16])
@@ -157,10 +163,12 @@ class EmuT3T(object):
                 return None
             err, scs, lst, rest = parse_lists(frame[10:])
             if lst is not None and len(rest) == 16 * len(lst):
-                rec = dict(sc=[sc for sc, n in lst], blocks=[n for sc, n in lst], data=bytes(rest), ok=False)
+                rec = dict(sys=self.system_of(frame[2:10]), sc=[sc for sc, n in lst], blocks=[n for sc, n in lst],
+                           data=bytes(rest), ok=False)
                 self.log.append(rec)
         elif len(frame) >= 11 and frame[1] == 0x06:
             err, scs, lst, rest = parse_lists(frame[10:])
+            self.read_sys.append(self.system_of(frame[2:10]))
             if lst is not None:
                 self.reads.append([n for sc, n in lst])
         rsp = self.emu.process_command(bytearray(frame))
@@ -239,19 +247,22 @@ def t3_build(case):
         attr[14] = 0
     nblocks = L.get("nblocks", L["nmaxb"] + L.get("extra", 0))
     other = rnd_bytes(case["seed"] * 7 + 3, 32)
+    multi = dict(nsys=L.get("nsys", 1), ndef_pos=L.get("pos", 0)) if case["kind"] != "emu" else {}
     if L.get("lazy"):               # data blocks generated on demand (tags with up to 65535 blocks)
         nbw_phys = min(L["nbw"], 12 if nblocks > 255 else 13)
         return SimT3T(attr, nblocks=nblocks, other=other, cut_after=case.get("cut"), gen=L.get("gen", 5),
-                      nbr_phys=max(1, min(L["nbr"], 15)), nbw_phys=nbw_phys)
+                      nbr_phys=max(1, min(L["nbr"], 15)), nbw_phys=nbw_phys, **multi)
     old = rnd_bytes(case["seed"] * 7 + 1, oldlen)
     fill = rnd_bytes(case["seed"] * 7 + 2, nblocks * 16 - len(old)) if L.get("dirty", True) else bytes(nblocks * 16 - len(old))
     cls = EmuT3T if case["kind"] == "emu" else SimT3T
-    t = cls(attr, data=old + fill, nblocks=nblocks, other=other, cut_after=case.get("cut"))
+    t = cls(attr, data=old + fill, nblocks=nblocks, other=other, cut_after=case.get("cut"), **multi)
     return t
 
 
-def t3_activate(t):
-    target = nfc.clf.RemoteTarget("212F", sensf_res=bytearray(t.sensf_res()))
+def t3_activate(t, act="ndef"):
+    """act: how the reader found the card -- poll for 12FCh ("ndef"), wildcard poll FFFFh with ("wild") or
+    without ("nocode") the system code in the answer (then system 0 answered)"""
+    target = nfc.clf.RemoteTarget("212F", sensf_res=bytearray(t.sensf_res(act)))
     tagobj = nfc.tag.activate(FakeClf(t), target)
     if type(tagobj) is not nfc.tag.tt3.Type3Tag:
         raise HarnessError("activation gave %r" % (tagobj,))
@@ -270,11 +281,15 @@ def run_t3(case):
     init = dict(attr=img0["attr"], nb=t.nblocks, gen=-1 if t.gen is None else t.gen,
                 blocks=[d for b, d in img0["blocks"]], oth=img0["oth"],
                 phys=dict(nbr=t.nbr_phys, nbw=t.nbw_phys))
+    act = case["layout"].get("act", "ndef")
+    init.update(card=dict(n=t.nsys, pos=t.ndef_pos), ract=t.ndef_pos if act == "ndef" else 0)
     ev = []
     op = case["op"]
     if op != "read":
-        tagobj = t3_activate(t)
+        tagobj = t3_activate(t, act)
         nd = first_ndef(tagobj)
+        # the system whose IDm the reader uses from now on, and the system code it believes to talk to
+        ev.append(dict(a="Disc", ridm=t.system_of(tagobj.idm), sys=int(tagobj.sys)))
         if nd is None and op == "write":
             op = "read"            # nothing to write to: the fresh view below is judged
     if op == "write":
@@ -301,18 +316,18 @@ def run_t3(case):
             res = classify_exc(e)
     if op != "read":
         for w in t.log:
-            ev.append(dict(a="W", sc=w["sc"], bl=w["blocks"], data=list(w["data"]), ok=w["ok"]))
+            ev.append(dict(a="W", sysn=w["sys"], sc=w["sc"], bl=w["blocks"], data=list(w["data"]), ok=w["ok"]))
         if not t.powered:
             ev.append(dict(a="Cut"))
         ev.append(dict(a="Ret", res=res, cap=cap))
     ncmds = len(t.log)
     t.power_on()
-    fresh = t3_activate(t)
+    fresh = t3_activate(t, act)
     k, v = fresh_view(fresh)
     cap, wr = (fresh.ndef.capacity, bool(fresh.ndef.is_writeable)) if k in ("ndef", "notreadable") else (-1, False)
     img = t3_image(t)
-    ev.append(dict(a="View", k=k, v=v, cap=cap, wr=wr, reads=[list(r) for r in t.reads], attr=img["attr"],
-                   blocks=img["blocks"], oth=img["oth"]))
+    ev.append(dict(a="View", k=k, v=v, cap=cap, wr=wr, reads=[list(r) for r in t.reads],
+                   rsys=sorted(set(t.read_sys)), attr=img["attr"], blocks=img["blocks"], oth=img["oth"]))
     return dict(id=case["id"], init=init, ev=ev), dict(ncmds=ncmds, breaches=list(t.breaches))
 
 
@@ -476,6 +491,19 @@ T4_C01_ONLY = [
 ]
 
 
+def t3_multi_layouts(full):
+    """Multi-system FeliCa cards: the NDEF system 12FCh at position 0, 1 or 2, the reader activated through
+    a wildcard poll (system 0 answers, with or without its system code) or a poll for 12FCh."""
+    out = []
+    combos = [(2, 0), (2, 1), (3, 1), (3, 2)] + ([(3, 0), (1, 0)] if full else [])
+    for nsys, pos in combos:
+        for act in ("wild", "ndef", "nocode"):
+            if act == "nocode" and not full and (nsys, pos) not in ((2, 1), (3, 2)):
+                continue
+            out.append(dict(nbr=4, nbw=2, nmaxb=5, extra=1, oldlen=21, nsys=nsys, pos=pos, act=act))
+    return out
+
+
 T3_HUGE = dict(nbr=15, nbw=12, nmaxb=4200, lazy=True, gen=9, ln=100)      # data area > 64 KiB
 
 
@@ -575,6 +603,10 @@ def gen_cases(pid, tier, seed):
             add("t3", T3_BIG, "write", mlen=m)
         for L in t3_attr_layouts(full):
             add("t3", L, "read")
+        for L in t3_multi_layouts(full):
+            add("t3", L, "read")
+            for m in ([0, 17, 80, 81] if not full else t3_lengths(L, rnd, False)):
+                add("t3", L, "write", mlen=m)
         for m in ([66000] if not full else [65535, 65536, 65537, 67199, 67200, 67201]):
             add("t3", T3_HUGE, "write", mlen=m)          # round trip above 64 KiB (Ln needs its third byte)
         for L in EMU_LAYOUTS + re:
@@ -609,6 +641,9 @@ def gen_cases(pid, tier, seed):
                 if full:
                     ms = t3_lengths(L, rnd, False)[:-1]
                 plan += [(kind, L, m) for m in ms]
+        multi = t3_multi_layouts(full)
+        for L in (multi if full else [multi[3], multi[-2]]):      # NDEF system not system 0, wildcard activation
+            plan += [("t3", L, m) for m in ((17, 80) if full else (33,))]
         if full:
             plan.append(("t3", T3_HUGE, 66000))          # Ln with three significant bytes, sampled cuts
         for L in [T4_LAYOUTS[i] for i in ((0, 1, 2, 4, 7, 8) if not full else range(0, 10))] + r4:
@@ -637,6 +672,11 @@ def gen_cases(pid, tier, seed):
                 for wipe in (None, 0xA5, 0):
                     add(kind, L, "format", ver=0x10, wipe=wipe)
                 add(kind, L, "format", ver=0x20, wipe=0x11)
+        multi = t3_multi_layouts(full)
+        for L in (multi if full else [multi[3], multi[-2], multi[1]]):
+            for m in (0, 40, 80):
+                add("t3", L, "write", mlen=m)
+            add("t3", L, "format", ver=0x10, wipe=0x5A)
         if full:
             add("t3", T3_BIG, "format", ver=0x10, wipe=0x3C)
             add("t3", T3_BIG, "write", mlen=4800)
